@@ -42,3 +42,12 @@ Proof.
   intros fx H. assert (E : variant12 current_cfg12 = Some true) by (vm_compute; reflexivity).
   rewrite E in H. injection H as <-. exact history_solvent.
 Qed.
+
+Theorem C12_history_with_param_edits_holds_for_current_tree :
+  forall fx, variant12 current_cfg12 = Some fx ->
+  forall ops s e0, inv (h12_os s) -> Forall (fun x => wf_op (snd x)) ops ->
+  P_history12v (obs_of (h12_os s) e0) (h12_store s) (run_obs12v fx s ops).
+Proof.
+  intros fx H. assert (E : variant12 current_cfg12 = Some true) by (vm_compute; reflexivity).
+  rewrite E in H. injection H as <-. exact history12v_P.
+Qed.
